@@ -475,6 +475,10 @@ Proof.
     + apply (close_pool_core _ _ _ _ _ H C).
     + apply (close_pool_rest cf _ _ _ H); auto.
   - (* OpenPool *)
+    destruct (pstate st =? 4) eqn:Ec4.
+    { inversion H; subst st' ob; clear H. destruct I as [C R]. split.
+      - apply (core_same [] st tr); sset; auto using incl_app_l.
+      - apply (rest_ext cf st); auto. }
     destruct (get cf None st) as [[g st1] ob1] eqn:Eg.
     destruct (get_inv _ _ _ _ _ _ _ Eg I) as (Ew & En & Ep & El & Eq & G).
     destruct g as [s| | |].
@@ -656,7 +660,9 @@ Proof.
     apply in_app_or in Hi as [Hi|Hi].
     + apply in_map_iff in Hi as (x & E & _). discriminate.
     + apply (rel_no_create _ (fail_obs_kind (waiters st))) in Hi. contradiction.
-  - destruct (get cf None st) as [[g st1] ob1] eqn:Eg.
+  - destruct (pstate st =? 4) eqn:Ec4.
+    { inversion H; subst st' ob; clear H. split; [lia|]. intros s0 [Hi|[]]. discriminate. }
+    destruct (get cf None st) as [[g st1] ob1] eqn:Eg.
     destruct (get_obs _ _ _ _ _ _ Eg) as (_ & Hn & Hc).
     destruct g as [s| | |].
     + pose proof (release_nsink cf s st1) as Rn. pose proof (release_obs cf s st1) as Ro.
@@ -933,7 +939,9 @@ Proof.
   - pose proof (close_pool_obs st) as Ho. rewrite H in Ho. cbn in Ho. subst ob. apply in_app_or in Hi as [Hi|Hi].
     + apply in_map_iff in Hi as (x & E & _). discriminate.
     + now apply (rel_not_fwd _ c s (fail_obs_kind (waiters st))) in Hi.
-  - destruct (get cf None st) as [[g st1] ob1] eqn:Eg.
+  - destruct (pstate st =? 4) eqn:Ec4.
+    { inversion H; subst st' ob; clear H. destruct Hi as [Hi|[]]. discriminate. }
+    destruct (get cf None st) as [[g st1] ob1] eqn:Eg.
     destruct (get_obs _ _ _ _ _ _ Eg) as (Go & _ & _).
     destruct g as [s2| | |].
     + pose proof (release_obs cf s2 st1) as Ro. destruct (release cf s2 st1) as [st2 ob2].
@@ -1128,7 +1136,9 @@ Proof.
   - inversion H; subst. sset. split; auto; intros c; cbn; unfold active; sset; lia.
   - destruct (close_pool_fields _ _ _ H) as (_ & _ & El & Eo & _ & _ & _ & En & _). split; auto. intros c.
     pose proof (close_pool_calls _ _ _ c H) as Hc. unfold active. rewrite El, Eo, !cnt_app. lia.
-  - destruct (get cf None st) as [[g st1] ob1] eqn:Eg.
+  - destruct (pstate st =? 4) eqn:Ec4.
+    { inversion H; subst st' ob; clear H. split; auto. }
+    destruct (get cf None st) as [[g st1] ob1] eqn:Eg.
     destruct (get_inv _ _ _ _ _ _ _ Eg I) as (Ew & En & _ & El & _ & G).
     destruct (get_obs _ _ _ _ _ _ Eg) as (Go & _ & _).
     assert (N0 : forall c, nterm c ob1 = 0%nat) by (intros; now apply nterm_get).
